@@ -38,6 +38,9 @@ def plugin_run(vectors, count):
         plugin_folder = os.path.join(folder, "plugins")
         os.makedirs(plugin_folder)
         shutil.copy(os.path.join(core.VERIF, "harness", "recording.py"), os.path.join(plugin_folder, "recording_plugin.py"))
+        with open(os.path.join(plugin_folder, "derived_plugin.py"), "w", encoding="utf-8") as derived_file:
+            derived_file.write("from cutplace import checks, fields\n\n\nclass ShoutFieldFormat(fields.ChoiceFieldFormat):\n    pass\n\n\n"
+                               "class KeyCheck(checks.IsUniqueCheck):\n    pass\n")
         jobs_path = os.path.join(folder, "jobs.json")
         sample = [v for v in vectors if len(v["hist"]) == 1][:count]
         with open(jobs_path, "w", encoding="utf-8") as jobs_file:
@@ -51,15 +54,43 @@ sys.path.insert(0, %(verif)r)
 import warnings; warnings.filterwarnings("ignore")
 import logging; logging.disable(logging.CRITICAL)
 from cutplace import interface, fields, checks
-before_fields = set(fields.AbstractFieldFormat.__subclasses__())
-before_checks = set(checks.AbstractCheck.__subclasses__())
+import gc
+def descendants(cls):
+    result = set()
+    for sub in cls.__subclasses__():
+        result.add(sub)
+        result |= descendants(sub)
+    return result
+before_fields = descendants(fields.AbstractFieldFormat)
+before_checks = descendants(checks.AbstractCheck)
 interface.import_plugins(%(folder)r)
-new_fields = sorted(c.__name__ for c in set(fields.AbstractFieldFormat.__subclasses__()) - before_fields)
-new_checks = sorted(c.__name__ for c in set(checks.AbstractCheck.__subclasses__()) - before_checks)
-assert new_fields == ["RecordingFieldFormat"] and new_checks == ["RecordingCheck"], (new_fields, new_checks)
+# the caller keeps nothing from import_plugins(): whatever the folder defines has to survive a collection
+gc.collect()
+new_fields = sorted(c.__name__ for c in descendants(fields.AbstractFieldFormat) - before_fields)
+new_checks = sorted(c.__name__ for c in descendants(checks.AbstractCheck) - before_checks)
+if new_fields != ["RecordingFieldFormat", "ShoutFieldFormat"] or new_checks != ["KeyCheck", "RecordingCheck"]:
+    print("PLUGINPROBLEM after import_plugins() and a garbage collection the classes of the folder are %%r and %%r" %% (new_fields, new_checks))
+    interface.import_plugins(%(folder)r)
+    keep = descendants(fields.AbstractFieldFormat) | descendants(checks.AbstractCheck)
+# a plugin class that extends a shipped class (documented: "inherit from an existing class") is resolved by its name
+from cutplace import errors, validio
+try:
+    derived_cid = interface.Cid()
+    derived_cid.read("derived", [["D", "Format", "Delimited"], ["D", "Item delimiter", ","], ["F", "a", "", "", "", "Shout", "x,y"], ["C", "k", "Key", "a"]])
+    kinds = (type(derived_cid.field_formats[0]).__name__, type(derived_cid.check_map["k"]).__name__)
+    if kinds != ("ShoutFieldFormat", "KeyCheck"):
+        print("PLUGINPROBLEM types Shout and Key resolved to %%r" %% (kinds,))
+    verdicts = []
+    with validio.Reader(derived_cid, io.StringIO("x\\r\\ny\\r\\nx\\r\\nz\\r\\n"), on_error="yield") as reader:
+        for item in reader.rows():
+            verdicts.append("bad" if isinstance(item, Exception) else "ok")
+    if verdicts != ["ok", "ok", "bad", "bad"]:
+        print("PLUGINPROBLEM rows x, y, x, z under the derived plugin classes gave %%r" %% (verdicts,))
+except errors.CutplaceError as error:
+    print("PLUGINPROBLEM a CID that uses plugin classes derived from ChoiceFieldFormat and IsUniqueCheck: %%s" %% error)
 import types
 # harness.recording is what sessionlib would import; give it the plugin's classes and log instead of defining new ones
-field_class = [c for c in fields.AbstractFieldFormat.__subclasses__() if c.__name__ == "RecordingFieldFormat"][0]
+field_class = [c for c in descendants(fields.AbstractFieldFormat) if c.__name__ == "RecordingFieldFormat"][0]
 shim = types.ModuleType("harness.recording")
 shim.LOG = field_class.validated_value.__globals__["LOG"]
 sys.modules["harness.recording"] = shim
@@ -79,14 +110,17 @@ print("RESULTS " + json.dumps(results))
         lines = [line for line in process.stdout.splitlines() if line.startswith("RESULTS ")]
         if process.returncode != 0 or not lines:
             raise core.MachineryError("plugin subprocess failed: %s" % process.stdout[-1500:])
-        return sample, json.loads(lines[0][len("RESULTS "):])
+        problems = [line[len("PLUGINPROBLEM "):] for line in process.stdout.splitlines() if line.startswith("PLUGINPROBLEM ")]
+        return sample, json.loads(lines[0][len("RESULTS "):]), problems
     finally:
         core.cleanup(folder)
 
 
 def extra(report, tier):
     vectors = extra.vectors
-    sample, results = plugin_run(vectors, 150 if tier == "quick" else 1500)
+    sample, results, plugin_problems = plugin_run(vectors, 150 if tier == "quick" else 1500)
+    for problem in plugin_problems:
+        report.violation("c20", {"via": "plugin folder"}, None, None, "classes imported from a plugin folder: " + problem)
     for vec, findings in zip(sample, results):
         report.replayed += 1
         for index, problems in findings:
